@@ -13,7 +13,9 @@
    compares every result with the same call made alone. *)
 From Coq Require Import Permutation.
 From JM Require Import Model.Base Model.Num Model.Value Model.Interp Model.Api Model.State Proofs.Frame.
-From JM Require Import gen.Writes.
+From Coq Require Import String.
+From JM Require Import gen.Writes gen.State Proofs.StateOk.
+Import ListNotations.
 
 Theorem C12_no_write_to_shared_storage :
   forall w : write_site, In w write_sites -> ws_prov w = PFresh.
@@ -36,6 +38,28 @@ Proof. exact (run_searches_spec ord). Qed.
 
 End C12.
 
+(* ---- the state inventory, regenerated from the source on every run (gen/State.v) ----
+   the objects that live across calls have exactly the fields the history model accounts
+   for (Model/State.v): Parser{expression, tokens, index}, JMESPath{ast, intr}; the
+   interpreter and the function table hold no per-call data; the only package-level
+   variables are the constant tables — no pool, cache or counter; and Parse assigns every
+   field of its Parser.  A new field, a package-level variable or a field that Parse does not
+   assign breaks these obligations (and the check then searches for the failing history). *)
+Theorem C12_objects_have_the_modelled_fields :
+  fields_of "Parser" struct_fields = Some ["expression"; "tokens"; "index"]%string /\
+  fields_of "JMESPath" struct_fields = Some ["ast"; "intr"]%string /\
+  fields_of "treeInterpreter" struct_fields = Some ["fCall"]%string /\
+  fields_of "functionCaller" struct_fields = Some ["functionTable"]%string /\
+  fields_of "functionEntry" struct_fields = Some ["name"; "arguments"; "handler"; "hasExpRef"]%string /\
+  fields_of "Lexer" struct_fields = Some ["expression"; "currentPos"; "lastWidth"; "buf"]%string.
+Proof. exact state_objects. Qed.
+
+Theorem C12_no_package_level_state :
+  package_vars = ["_astNodeType_index"; "_tokType_index"; "basicTokens"; "bindingPowers"; "identifierTrailingBits"; "whiteSpace"]%string.
+Proof. exact state_package_vars. Qed.
+
 Print Assumptions C12_no_write_to_shared_storage.
 Print Assumptions C12_call_does_not_change_the_compiled_expression.
 Print Assumptions C12_result_as_when_alone.
+Print Assumptions C12_objects_have_the_modelled_fields.
+Print Assumptions C12_no_package_level_state.
